@@ -605,3 +605,48 @@ func resolveNav(w *World, v ssa.Value) ssa.Value {
 	}
 	return v
 }
+
+// zeroReaches: can the cell still hold its initial zero value at instruction at
+// (no store on some path from its allocation)?
+func zeroReaches(fn *ssa.Function, a *ssa.Alloc, at ssa.Instruction) bool {
+	in := map[*ssa.BasicBlock]bool{}
+	out := map[*ssa.BasicBlock]bool{}
+	changed := true
+	for changed {
+		changed = false
+		for _, b := range fn.Blocks {
+			cur := false
+			for _, p := range b.Preds {
+				if out[p] {
+					cur = true
+				}
+			}
+			in[b] = cur
+			for _, ins := range b.Instrs {
+				if ins == ssa.Instruction(a) {
+					cur = true
+				}
+				if st, ok := ins.(*ssa.Store); ok && st.Addr == ssa.Value(a) {
+					cur = false
+				}
+			}
+			if cur != out[b] {
+				out[b] = cur
+				changed = true
+			}
+		}
+	}
+	cur := in[at.Block()]
+	for _, ins := range at.Block().Instrs {
+		if ins == at {
+			break
+		}
+		if ins == ssa.Instruction(a) {
+			cur = true
+		}
+		if st, ok := ins.(*ssa.Store); ok && st.Addr == ssa.Value(a) {
+			cur = false
+		}
+	}
+	return cur
+}
